@@ -22,7 +22,8 @@ EXPLANATION = (
     'C08.b: each (global matrix, matrix-of-matrices) pair is assigned together from the same value and frozen '
     '(setflags(write=False)). C08.c: raw channel attributes are read only inside the named accessors; '
     'corrupt_concatenated_data multiplies by the big_H property, stores in _last_noise exactly the array it '
-    'added, and applies the post filter after the noise. Not decided: numeric block equality, noise statistics.')
+    'added, and applies the post filter after the noise. Not decided: numeric block equality, noise statistics.'
+    ' General rules also applied here (see DESIGN 10.5): validate-before-commit (no `raise` reachable after the object was already changed in a public mutator); escaping attributes are only rebound, never written in place.')
 
 RAW_ATTRS = {'_H_no_pathloss', '_big_H_no_pathloss', '_H_with_pathloss', '_big_H_with_pathloss'}
 RAW_READERS = {'H', 'big_H', 'randomize', 'init_from_channel_matrix', '__init__'}
